@@ -121,6 +121,7 @@ def c11(ctx):
     exc.r_exc(ctx, SW + 'connect_valid_graph', {'ValueError'}, floor=2)
     exc.r_typed_dispatch(ctx, [SW + 'find_vertices'], floor=1)
     purity.r_monitor(ctx)       # both functions drive the progress monitor; it is in their closure
+    misc2.r_conv(ctx)           # index i is judged on number_to_dna(i, k): the rendering must be exact
 
 
 def c13(ctx):
